@@ -469,7 +469,11 @@ func (ex *Exec) invokeOpaque(st *State, x *Term, m *types.Func, args []Value, ca
 	}
 	// calling a method on the nil interface panics
 	ex.panicIf(st, Eq(tagOfItem(x), TagNil), "nil-interface-call", call.Pos())
-	return ex.opaqueCall(st, "m."+m.Name(), []*Term{x}, args, call.Type())
+	r := ex.opaqueCall(st, "m."+m.Name(), []*Term{x}, args, call.Type())
+	if t, ok := r.(*Term); ok {
+		return ex.known(t)
+	}
+	return r
 }
 
 func (ex *Exec) builtin(st *State, b *ssa.Builtin, args []Value, x *ssa.Call) Value {
